@@ -15,9 +15,9 @@ import (
 // caller's path condition and memory, its safety obligations (bounds, nil, division, ...) become
 // obligations of the caller, and its return sites are merged into one result and one memory.
 // This is exact (no abstraction), so a refactoring that moves a few lines into a new helper keeps
-// every proof, and a change hidden in such a helper is still seen. Calls inside a loop of the
-// caller are not inlined (stores would bypass the loop's modifies check): they stay "call without
-// contract inside a loop" = outside the subset.
+// every proof, and a change hidden in such a helper is still seen. Inside a loop of the caller the
+// helper's blocks count as the block of the call site (enclosingLoops), so its stores and
+// allocations are checked against that loop's modifies clauses like the caller's own.
 
 func (vc *VC) curFn() *ssa.Function {
 	if n := len(vc.inl); n > 0 {
@@ -37,9 +37,6 @@ func (vc *VC) canInline(f *ssa.Function) bool {
 		if g == f {
 			return false
 		}
-	}
-	if len(vc.inl) == 0 && len(vc.enclosingLoops(vc.cur)) > 0 {
-		return false
 	}
 	for _, b := range f.Blocks {
 		for _, s := range b.Succs {
@@ -61,6 +58,9 @@ func (vc *VC) inlineCall(f *ssa.Function, key string, args []SVal, pos token.Pos
 	vc.note("call to %s (same package, no contract, loop-free): body executed in place, its safety obligations are obligations of this function", shortFuncName(key))
 	sCur, sR, sV, sM, sNa, sNf, sB := vc.cur, vc.retR, vc.retVals, vc.retMems, vc.retNalloc, vc.retNfail, vc.retBlks
 	vc.retR, vc.retVals, vc.retMems, vc.retNalloc, vc.retNfail, vc.retBlks = nil, nil, nil, nil, nil, nil
+	if len(vc.inl) == 0 {
+		vc.inlSite = sCur
+	}
 	vc.inl = append(vc.inl, f)
 	for _, b := range f.Blocks {
 		delete(vc.R, b)
@@ -104,6 +104,9 @@ func (vc *VC) inlineCall(f *ssa.Function, key string, args []SVal, pos token.Pos
 	}
 	bound := vc.curBound()
 	vc.inl = vc.inl[:len(vc.inl)-1]
+	if len(vc.inl) == 0 {
+		vc.inlSite = nil
+	}
 	vc.cur, vc.retR, vc.retVals, vc.retMems, vc.retNalloc, vc.retNfail, vc.retBlks = sCur, sR, sV, sM, sNa, sNf, sB
 	vc.curMem = mem.clone()
 	vc.nalloc, vc.nfail = na, nf
